@@ -130,16 +130,22 @@ func H_C17_inline_strings_from_xml() {
 //
 //symgo:harness prop=C18 kernel=K2-xlsx-sheets-from-xml noreplay=1
 //symgo:redirect (*github.com/tsawler/tabula/xlsx.Reader).getFileContent vStubPart
-//symgo:desc three sheets First, Second, Third (workbook order) whose parts sheetN.xml and relationship ids are an enumerated permutation; relationship file lists them in id order, interleaved with styles/sharedStrings/theme relationships; targets written relative ("worksheets/sheet2.xml") or absolute ("/xl/worksheets/sheet2.xml") (enumerated); each part's A1 holds a marker naming the part: parseRelationships + parseWorkbook + parseWorksheets (real tokeniser, modelled reflection walk; zip cut at getFileContent) return the sheets in workbook order and sheet i shows exactly its own part's marker
+//symgo:desc three sheets First, Second, Third (workbook order) whose parts sheetN.xml and relationship ids are an enumerated permutation; relationship file lists them in id order, interleaved with styles/sharedStrings/theme relationships; targets written relative ("worksheets/sheet2.xml"), absolute ("/xl/worksheets/sheet2.xml"), with a "./" prefix or with "worksheets/../worksheets/" dot segments (enumerated); optionally a fourth sheet entry whose r:id is not declared by any relationship (enumerated; it names no part, so it is no page); each part's A1 holds a marker naming the part: parseRelationships + parseWorkbook + parseWorksheets (real tokeniser, modelled reflection walk; zip cut at getFileContent) return the sheets in workbook order and sheet i shows exactly its own part's marker
 func H_C18_xlsx_from_xml() {
 	p := []int{0, 1, 2}
 	for i := 0; i < 2; i++ {
 		j := vAnyIntIn(i, 2)
 		p[i], p[j] = p[j], p[i]
 	}
-	abs := vAnyIntIn(0, 1) == 1
+	spelling := vAnyIntIn(0, 3) // relative, absolute, "./" prefix, "dir/../dir/" dot segments
+	abs := spelling == 1
+	dangling := vAnyIntIn(0, 1) == 1 // a fourth sheet whose r:id no relationship declares
 	names := []string{"First", "Second", "Third"}
 	wb := `<?xml version="1.0" encoding="UTF-8" standalone="yes"?><workbook ` + vNS + ` xmlns:r="http://schemas.openxmlformats.org/officeDocument/2006/relationships"><bookViews><workbookView/></bookViews><sheets>`
+	if dangling {
+		// listed first: a positional file-name guess ("sheet1.xml") would find another sheet's part
+		wb += `<sheet name="Ghost" sheetId="9" r:id="rId77"/>`
+	}
 	for i, nm := range names {
 		wb += `<sheet name="` + nm + `" sheetId="` + string(rune('1'+i)) + `" r:id="rId` + string(rune('1'+p[i])) + `"/>`
 	}
@@ -149,8 +155,13 @@ func H_C18_xlsx_from_xml() {
 	vParts = map[string]string{}
 	for k := 0; k < 3; k++ {
 		target := "worksheets/sheet" + string(rune('1'+k)) + ".xml"
-		if abs {
+		switch {
+		case abs:
 			target = "/xl/" + target
+		case spelling == 2:
+			target = "./" + target
+		case spelling == 3:
+			target = "worksheets/../worksheets/sheet" + string(rune('1'+k)) + ".xml"
 		}
 		rels += `<Relationship Id="rId` + string(rune('1'+k)) + `" Type="http://schemas.openxmlformats.org/officeDocument/2006/relationships/worksheet" Target="` + target + `"/>`
 		if k == 1 {
